@@ -28,13 +28,12 @@ Definition frame_out_eqb (a b : frame_out) : bool :=
 Record frames_case := { fk_excl : cv; fk_incl : cv; fk_exec_prefix : str; fk_root : str; fk_stack : list frame_meta;
                         fk_type : frame_type; fk_obs : list frame_out; fk_obs_has_vars : list bool;
                         fk_locals_empty : list bool }.
-(* a frame that is selected but has no locals has no variables either; so the observed
-   "has variables" flag must equal selected && locals non-empty *)
+(* a frame carries variables only if frame_type selects it and it has locals (which of the locals
+   it carries under the limits is the collector's correspondence, Collector.check_snap_case) *)
 Definition check_frames_case (c : frames_case) : bool :=
   list_eqb frame_out_eqb
     (frames_of (with_exec_prefix (fk_exec_prefix c) (as_prefixes (fk_excl c))) (as_prefixes (fk_incl c)) (fk_root c) (fk_stack c))
     (fk_obs c)
-  && list_eqb Bool.eqb
-       (map (fun p => andb (fst p) (negb (snd p)))
-            (combine (collect_flags_from (fk_type c) 0 (length (fk_stack c))) (fk_locals_empty c)))
-       (fk_obs_has_vars c).
+  && Nat.eqb (length (fk_obs_has_vars c)) (length (fk_stack c))
+  && forallb (fun p => implb (snd p) (andb (fst (fst p)) (negb (snd (fst p)))))
+       (combine (combine (collect_flags_from (fk_type c) 0 (length (fk_stack c))) (fk_locals_empty c)) (fk_obs_has_vars c)).
